@@ -39,6 +39,23 @@ fn dup_logical(rng: &mut Rng, i: u64, codec: u8) -> Logical {
         // contents above 1 MiB (sometimes above 2^24 bytes) present as reader-backed AND in-memory tiles
         return gen::gen_logical(rng, SizeClass::HugeTiles, codec);
     }
+    if i % 48 == 29 {
+        // n singles that cannot merge (three contents in rotation), then a short run: the run starts at entry number n, with n
+        // on / next to a power of two (block-wise directory building)
+        let n = [131_071u64, 131_072, 65_535, 65_536, 262_143, 131_073][((i / 48) % 6) as usize];
+        l.tiles.clear();
+        let start = rng.below(1 << 20);
+        let short: Vec<Rc<Vec<u8>>> = (0..3u8).map(|j| Rc::new(vec![j, 0x11, 0x22])).collect();
+        for k in 0..n {
+            l.tiles.insert(start + k, short[(k % 3) as usize].clone());
+        }
+        let tail = Rc::new(vec![9u8, 9, 9, 9]);
+        for k in 0..3 {
+            l.tiles.insert(start + n + k, tail.clone());
+        }
+        l.class = format!("singles-{n}-then-run");
+        return l;
+    }
     if i % 24 == 13 {
         // one very long run whose length sits on a power-of-two / integer-width boundary
         let n = [255u64, 256, 257, 65_535, 65_536, 65_537, 70_000, 131_073][((i / 24) % 8) as usize];
@@ -277,8 +294,16 @@ pub fn run(ctx: &mut Ctx) {
                     check_store(&arch.report(), &model).map_err(|e| format!("builder: {e}"))?;
                 }
             }
-            arch.save().map_err(|e| e.to_string())
+            if i % 5 == 2 {
+                // into a stream that still holds an older, longer file: the archive's sections must not grow to cover stale bytes
+                arch.save_over(3_000_000).map_err(|e| e.to_string())
+            } else {
+                arch.save().map_err(|e| e.to_string())
+            }
         });
+        if i % 5 == 2 {
+            ctx.count("archives_written_over_a_longer_stale_file");
+        }
         ctx.case(hash_u64s(&[l.fingerprint(), i % 4]), nontrivial);
         match built {
             Err(p) => ctx.panic("PMTiles::build+to_writer", &p, mat),
